@@ -20,7 +20,7 @@ pub fn property() -> Property {
         parts: vec![Box::new(GenPart {
             name: "trains",
             rule: "see property rule",
-            cases: (720_000, 4_000_000),
+            cases: (720_000, 20_000_000),
             fuzz_decode: Some(crate::fuzzdec::c11_case),
             strategy,
             check,
